@@ -189,8 +189,10 @@ def obligations(tier):
         ("T17", "dict", "single", 2),
         ("T17", "file_array", "per_output", 2),
         ("T5", "dict", "single", 2),
+        ("T7p", "dict", "single", 2),
+        ("T7", "mix_file_first", "default_dict", 2),
     ]
-    full = [(tid, st, ek, 2) for tid in ("T1", "T3", "T4", "T5", "T8", "T10", "T12", "T13", "T17") for st in ("dict", "file_array", "dict_sub", "mix_file_first", "mix_sub_first") for ek in ("single", "default_dict", "per_output")]
+    full = [(tid, st, ek, 2) for tid in ("T1", "T3", "T4", "T5", "T7", "T7p", "T8", "T10", "T12", "T13", "T17") for st in ("dict", "file_array", "dict_sub", "mix_file_first", "mix_sub_first") for ek in ("single", "default_dict", "per_output")]
     for tid, st, ek, hi in full if thorough else quick:
         t = T[tid]
         nch = 4 if not thorough else 6
